@@ -69,6 +69,25 @@ CHECKS = {
             'deterministic simulation: on-path cleartext edit fault '
             'injection + configuration search, reference negotiation model',
             'DESIGN.md 4 C03'),
+    'C05': ('c05_auth',
+            'Seeded exploration of USERAUTH message histories sent by an '
+            'independent hostile client (RefPeer, holding the session keys) '
+            'to a real asyncssh server whose application validators and '
+            'begin_auth complete asynchronously as scheduler events: '
+            'pipelined/sequential requests mixing methods, users, valid/'
+            'invalid credentials and signatures over the wrong session id/'
+            'user/service/key; then probes. A reference model over the '
+            'received history decides: SUCCESS only if some received request '
+            'for the user the server reports carried a valid credential; '
+            'channel opens are fatal before and served after success; pty/'
+            'forced command/permitopen behaviour matches the option set of '
+            'an accepted credential. An honest asyncssh client with password/'
+            'key/certificate/kbdint is admitted iff the credential is valid.',
+            COMMON_NOTE + ' GSSAPI, security keys, X.509, hostbased (only as '
+            'a rejected method) and agent-held keys are not exercised.',
+            'deterministic simulation: message-history + validator-completion '
+            'interleaving search against a reference authentication model',
+            'DESIGN.md 4 C05'),
     'C07': ('c07_channel_data',
             'Seeded exploration of multi-channel write/read/pause programs on '
             'a real asyncssh client/server pair under a scheduler that owns '
